@@ -261,6 +261,62 @@ def cases_slow_device():
     return out
 
 
+async def run_with_hangup(rep, case, sub):
+    """op A (fine) - op B (the device answers the login, then closes instead of answering the command) - the caller
+    reconnects - op C (fine).  On EVERY connection the client opened, the frame log must consist of whole exchanges that
+    start with a login frame and whose command frames carry the session issued on that connection for that login."""
+    dev = await env.device()
+    cfg = case["clients"][0]
+    cl = ops.Client(dev, cfg["type"], cfg["device_id"], f"{cfg['key']:02x}")
+    n_before = len(dev.conns)
+    await cl.connect()
+    try:
+        with time_machine.travel(dt.datetime.fromtimestamp(case["t0"], UTC), tick=False):
+            for idx, op in enumerate(case["ops"]):
+                script = ops.good_script(op["kind"], op["args"], op["session"], salt=op.get("salt", 1))
+                if idx == case["hangup_at"]:
+                    script = script[:1] + [{"eof": True}]
+                dev.set_script(script)           # device-wide: also answers connections the library opens on its own
+                status, res = await cl.call(op["kind"], op["args"])
+                if idx == case["hangup_at"]:
+                    await cl.close()
+                    cl = ops.Client(dev, cfg["type"], cfg["device_id"], f"{cfg['key']:02x}")
+                    await cl.connect()
+                elif status != "ok":
+                    raise Violation(f"C03/operation-fails/op={op['kind']}/around-hangup", case, "operation completes", f"{status}: {res!r}")
+    finally:
+        await cl.close()
+    await dev.wait_all_closed(turns=300)
+    conns = dev.conns[n_before:]
+    rep.tick(sub, key=case, nontrivial=True, sample=_brief(case), labels=(f"connections={len(conns)}",))
+    login_op = "a100" if cfg["type"] == 1 else "a600"
+    for ci, conn in enumerate(conns):
+        session = None
+        replies_iter = iter(conn.sent)
+        for fi, f in enumerate(conn.frames):
+            reply = next(replies_iter, None)
+            d = wire.decode(f) if len(f) >= 44 else None
+            where = {"connection": ci, "frame": fi, "kind": wire.classify(f) if d else "short"}
+            if d is None:
+                raise Violation("C03/short-frame/around-hangup", case, ">= 44 bytes", dict(where, hex=f.hex()))
+            if d["op"] == login_op:
+                session = reply[8:12].hex() if isinstance(reply, (bytes, bytearray)) and len(reply) >= 12 else None
+                continue
+            if fi == 0 or session is None and not any(wire.decode(g)["op"] == login_op for g in conn.frames[:fi] if len(g) >= 44):
+                raise Violation("C03/command-frame-without-login-on-its-connection", case, "login frame first", where)
+            if session is not None and d["session"] != session:
+                raise Violation("C03/session-not-from-this-login/around-hangup", case, session, dict(where, session=d["session"]))
+
+
+def strat_hangup():
+    def for_type(t):
+        kinds = [k for k in (ops.KINDS1 if t == 1 else ops.KINDS2)]
+        op = op_strategy(kinds, lambda k: 0)
+        return st.builds(lambda cfg, oplist, at, t0: {"clients": cfg, "t0": t0, "ops": oplist, "hangup_at": at % len(oplist)},
+                         client_cfgs([t]), st.lists(op, min_size=2, max_size=4), st.integers(0, 3), st.integers(300_000, 2 ** 31))
+    return st.sampled_from([1, 2]).flatmap(for_type)
+
+
 def strat_interleaved():
     def for_types(types):
         kinds_of = {1: ops.KINDS1, 2: ops.KINDS2}
@@ -278,6 +334,8 @@ def subchecks(tier):
         Sub("pairs-random-args", make_body("pairs-random-args"), strategy=strat_pairs_random, n=256 * 50 if big else 600,
             shards=16 if big else 2),
         Sub("dst-clock", make_body("dst-clock"), strategy=strat_dst_clock, n=20_000 if big else 500, shards=16 if big else 2),
+        Sub("device-hangs-up", lambda rep, case: net.run(run_with_hangup(rep, case, "device-hangs-up")), strategy=strat_hangup,
+            n=20_000 if big else 400, shards=16 if big else 2),
         Sub("sequences", make_body("sequences"), strategy=strat_seq, n=60_000 if big else 800, shards=16 if big else 4),
         *([Sub("slow-device", make_body("slow-device"), cases=cases_slow_device, shards=2, exhaustive=True)] if big else []),
         Sub("interleaved", make_body("interleaved"), strategy=strat_interleaved, n=60_000 if big else 1000, shards=16 if big else 4),
